@@ -61,6 +61,21 @@ CHECKS = {
         "document depth under descendant segments) at depths 8..32768 in isolated subprocesses with an 8 MiB stack and a wall-clock horizon.",
    design="4.C08", note="bounds: the enumerated spaces, the cube values, the ladder rungs; asymptotic claims are out of reach; stack exhaustion findings are identified by (construct, first failing rung)",
    technique="exhaustive enumeration of bounded input spaces under panic / abort / timeout observation (subprocess isolation for stack exhaustion)"),
+ "C05": dict(
+   text="Part 1, exhaustive: every formula over three atoms with up to k binary connectives and every placement of `!`, in three renderings (minimal parentheses so that precedence "
+        "must do the work, fully parenthesised, with blanks), decided for every valuation of the members (absent / null / false / 0 / \"\" / [] / {} / 1) by one packed filter query, "
+        "for four atom assignments (existence, comparison, function test, bracket / root forms) and both container kinds; two oracles: the reference model and, independently, Boolean "
+        "algebra over the kept-sets the implementation itself reports for the atoms. Part 2: the scoping family (filters nested in filter queries, `$` inside nested filters, `@` at "
+        "several levels) over a compositional item universe.",
+   design="4.C05", note="trusted base: reference model; the Boolean-algebra oracle needs none; bounds: k, the valuation universe, the scoping query list",
+   technique="exhaustive enumeration of Boolean formulas x valuations (truth-table checking) against a reference model and a model-independent compositional oracle"),
+ "C10": dict(
+   text="Regex: every pattern string of AST size <= s over literals, dot, classes, escaped dot, anchors, groups, alternation and the three quantifiers, plus invalid patterns and patterns "
+        "with quotes / backslashes, x every subject over {a,b} up to length 3 plus special and non-string subjects, x match/search x pattern supplied from the document, as a single-quoted "
+        "literal, and negated as a double-quoted literal. Values: length/count/value over the whole C04 value universe (and nothing) in comparisons against literals and each other, "
+        "nodelists of size 0..3 from member, wildcard, descendant, empty slice and filter queries. Oracle: reference model, whose matcher is first cross-checked against the regex crate on the same universe.",
+   design="4.C10", note="trusted base: regex_ref (backtracking matcher, ~250 lines) validated against the regex crate at start-up; `^`/`$` are assertions; subjects have no line terminators",
+   technique="exhaustive enumeration of a bounded regular-expression language x subject strings, and of function-argument tables, against a reference model"),
 }
 
 checks = []
